@@ -15,9 +15,13 @@ EXPLANATION = ("SYMMETRY (writer/reader agreement): for Coin::Serialize/Unserial
                "both directions. ScriptCompression: the writer's size offset, the reader's threshold and its subtraction are the same constant "
                "(nSpecialScripts); TABLE agreement between CompressScript (tag byte -> bytes emitted), GetSpecialScriptSize (tag -> payload bytes the "
                "reader consumes) and DecompressScript (tag -> bytes copied; cases = all tags below nSpecialScripts); the reader consumes exactly the "
-               "announced number of bytes on both the oversized and the normal path.")
+               "announced number of bytes on both the oversized and the normal path. Shape agreement: the per-tag script template DecompressScript writes "
+               "(length, fixed opcode/push bytes, key header byte, payload offset) is extracted and every accepting path of IsToKeyID / IsToScriptID / "
+               "IsToPubKey must imply it (0x04 header and IsFullyValid for rebuilt keys); CompressScript writes a tag only under the key header the "
+               "decompressor regenerates for it.")
 ASSUMPTIONS = ["VARINT encodes 0 as the single byte 0x00 (legacy dummy slot: writer emits one zero byte, reader reads one VARINT)",
                "VARINT of a value < 0x80 is one byte, so the first byte of a compressed special script doubles as the reader's nSize",
+               "CPubKey::Decompress() turns a valid 0x02/0x03 key into the 65-byte key with header 0x04 (so a rebuilt uncompressed key always starts with 0x04)",
                "the wrappers at corresponding positions use the same formatter (template arguments of Using<F>() are not present in the extracted facts)"]
 CLAIM = dict(
     technique="static analysis: writer/reader symmetry of extracted stream-operation sequences + table agreement between three routines",
@@ -458,6 +462,168 @@ def tag_values(v, formula):
 
 
 # --------------------------------------------------------------------------------------------------
+# special-script shapes: what the compress side accepts is exactly what the decompress side regenerates
+
+def decompress_templates(P):
+    """{tag: dict(size=N, fixed={pos: shown constant}, tagpos=pos|None, payload=(pos, len)|None, rebuilt=(pos, len)|None)} from DecompressScript."""
+    ds = P.fn("DecompressScript")
+    sp, tg, inp = ds.params[0]["n"], ds.params[1]["n"], ds.params[2]["n"]
+    out = {}
+
+    def tags_of(s):
+        cg = [g for g in s.guards if g.kind == "case"]
+        if len(cg) != 1 or not all(match(["int", ANY], v) for v in cg[0].vals):
+            return None
+        return [v[1] for v in cg[0].vals]
+    for s in all_sites(ds, P):
+        x = s.expr
+        if x is None:
+            continue
+        ts = tags_of(s)
+        if ts is None:
+            continue
+        for t in ts:
+            d = out.setdefault(t, dict(size=set(), fixed={}, tagpos=None, payload=None, rebuilt=None, decompress_checked=False, vch0=None))
+            if is_call_to("prevector::resize", x) and x[2] == ["param", sp] and match(["int", ANY], call_args(x)[0]):
+                d["size"].add(call_args(x)[0][1])
+            elif x[0] == "b" and x[1] == "=" and match(["idx", ["param", sp], ["int", ANY]], x[2]):
+                pos, v = x[2][2][1], strip(x[3])
+                if v == ["param", tg]:
+                    d["tagpos"] = pos
+                elif is_expr(v) and v[0] in ("int", "enum"):
+                    d["fixed"][pos] = show(v)
+                else:
+                    raise AnalysisBroken("DecompressScript: unexpected byte written at position %s" % pos)
+            elif is_call_to("memcpy", x) and match(["u", "&", ["idx", ["param", sp], ["int", ANY]]], call_args(x)[0]) and match(["int", ANY], call_args(x)[2]):
+                pos, n, src = call_args(x)[0][2][2][1], call_args(x)[2][1], strip(call_args(x)[1])
+                if is_call_to("prevector::data", src) and src[2] == ["param", inp]:
+                    d["payload"] = (pos, n)
+                elif is_call_to("CPubKey::begin", src):
+                    d["rebuilt"] = (pos, n)
+                else:
+                    raise AnalysisBroken("DecompressScript: unexpected copy source")
+            elif x[0] == "b" and x[1] == "=" and match(["idx", ["local", ANY], ["int", 0]], x[2]) and match(["b", "-", ["param", tg], ["int", ANY]], strip(x[3])):
+                d["vch0"] = strip(x[3])[3][1]
+    # a failing CPubKey::Decompress makes DecompressScript return false
+    for e in exits(ds, P, {}):
+        if is_true_ret(e):
+            ts = None
+            for g in e.guards:
+                if g.kind == "case":
+                    ts = [v[1] for v in g.vals if match(["int", ANY], v)]
+            for t in ts or []:
+                if out.get(t, {}).get("rebuilt"):
+                    ats = [a for a in F.atoms(e.formula) if a.endswith(".Decompress()")]
+                    out[t]["decompress_checked"] = len(ats) == 1 and F.implies(e.formula, F.atom(ats[0]))
+    return out
+
+
+def special_shapes(ctx, P):
+    T = decompress_templates(P)
+    ds, cs = P.fn("DecompressScript"), P.fn("CompressScript")
+    outp = cs.params[1]["n"]
+    # rebuilt keys: compressed header = tag - 2 in {2, 3}, decompression must succeed, the 65-byte key is copied behind the push opcode
+    for t, d in sorted(T.items()):
+        if d["rebuilt"]:
+            ok = d["vch0"] is not None and (t - d["vch0"]) in (2, 3) and d["decompress_checked"] and d["rebuilt"][1] == 65 and d["fixed"].get(d["rebuilt"][0] - 1) == "65" \
+                and d["size"] == {d["rebuilt"][0] + 65 + 1}
+            ctx.ob("SpecialScripts/rebuild:%d" % t, "TABLE", "tag %d: DecompressScript rebuilds the key from header (tag - %s) + 32 payload bytes, fails if CPubKey::Decompress fails, "
+                   "and emits push-65 + the 65-byte (0x04-prefixed) key + OP_CHECKSIG" % (t, d["vch0"]), ok, ds.where, {"template": {k: (sorted(v) if isinstance(v, set) else v) for k, v in d.items()}})
+    # gates of CompressScript
+    sites_ = sites(cs, lambda e: e[0] == "b" and e[1] == "=" and match(["idx", ["param", outp], ["int", 0]], e[2]), P)
+    gates = {}
+    for s in sites_:
+        fm = s.formula({})
+        tags = tag_values(strip(s.expr[3]), fm)
+        if not tags:
+            raise AnalysisBroken("CompressScript: cannot derive the tag values at line %s" % s.line)
+        g = [a for a in F.atoms(fm) if re.match(r"^IsTo\w+\(", a) and F.implies(fm, F.atom(a))]
+        if len(g) != 1:
+            raise AnalysisBroken("CompressScript: tag written outside exactly one IsTo*() gate at line %s" % s.line)
+        m = re.match(r"^(IsTo\w+)\((\w+), (\w+)\)$", g[0])
+        if not m:
+            raise AnalysisBroken("CompressScript: unexpected gate %s" % g[0])
+        gates.setdefault(m.group(1), dict(key=m.group(3), sites=[]))["sites"].append((s, tags, fm))
+    for q, info in sorted(gates.items()):
+        pf = ctx.used(P.fn(q))
+        ps, po = pf.params[0]["n"], pf.params[1]["n"]
+        alltags = sorted({t for _, tags, _ in info["sites"] for t in tags})
+        if any(t not in T for t in alltags):
+            ctx.ob("SpecialScripts/shape:%s" % q, "SYMMETRY", "every tag written under %s has a DecompressScript case" % q, False, cs.where, {"tags": alltags})
+            continue
+        sizes = {}
+        for t in alltags:
+            if len(T[t]["size"]) != 1:
+                raise AnalysisBroken("DecompressScript: tag %d has no unique script size" % t)
+            sizes.setdefault(next(iter(T[t]["size"])), []).append(t)
+        accepts = [e for e in exits(pf, P, {}) if e.kind == "ret" and not is_false_ret(e)]
+        used_sizes = set()
+        for e in accepts:
+            A = F.mk_and([e.formula, F.to_formula(e.value, {})]) if not is_true_ret(e) else e.formula
+            where = "%s:%s" % (pf.file, e.line)
+            N = [n for n in sizes if F.implies(A, F.atom("%s.size() == %d" % (ps, n)))]
+            if len(N) != 1:
+                ctx.ob("SpecialScripts/shape:%s@L%s" % (q, e.line), "SYMMETRY", "%s accepts only scripts of a length DecompressScript regenerates for the tags written under it" % q,
+                       False, where, {"accept_condition": F.fshow(A)[:400], "sizes": {n: ts for n, ts in sizes.items()}})
+                continue
+            n = N[0]
+            used_sizes.add(n)
+            ts = sizes[n]
+            tmpl = T[ts[0]]
+            want = [F.atom("%s[%d] == %s" % (ps, pos, v)) for pos, v in sorted(tmpl["fixed"].items())]
+            hdr = None
+            if tmpl["tagpos"] is not None:
+                hdr = tmpl["tagpos"]
+                want.append(F.mk_or([F.atom("%s[%d] == %d" % (ps, hdr, t)) for t in ts]))
+            if tmpl["rebuilt"]:
+                hdr = tmpl["rebuilt"][0]
+                want.append(F.atom("%s[%d] == 4" % (ps, hdr)))
+                want.append(F.atom("%s.IsFullyValid()" % po))
+            cex = F.counterexample(A, F.mk_and(want))
+            ctx.ob("SpecialScripts/shape:%s@L%s" % (q, e.line), "SYMMETRY", "%s accepts (tags %s) only scripts that DecompressScript regenerates byte for byte: length %d, the "
+                   "fixed opcode/push bytes at the same positions%s" % (q, ts, n, ", the key header byte equal to what the decompressor writes (the tag for compressed keys, 0x04 and a "
+                                                                       "fully valid key for rebuilt uncompressed keys)" if hdr is not None else ""),
+                   cex is None, where, None if cex is None else {"accept_condition": F.fshow(A)[:500], "required": F.fshow(F.mk_and(want)), "counterexample": cex})
+            # what is copied out of the script is what the decompressor copies back in
+            okc = True
+            detail = {}
+            guards_in = lambda s: F.implies(s.formula({}), F.atom("%s.size() == %d" % (ps, n)))
+            if hdr is None:
+                cps = [s for s in sites(pf, call_to("memcpy"), P) if guards_in(s)]
+                okc = len(cps) == 1 and match(["u", "&", ["idx", ["param", ps], ["int", ANY]]], call_args(cps[0].expr)[1]) and tmpl["payload"] is not None and \
+                    (call_args(cps[0].expr)[1][2][2][1], call_args(cps[0].expr)[2][1] if match(["int", ANY], call_args(cps[0].expr)[2]) else None) == tmpl["payload"]
+                detail = {"decompress_payload": tmpl["payload"]}
+            else:
+                sets = [s for s in sites(pf, call_to("CPubKey::Set"), P) if guards_in(s)]
+                okc = len(sets) == 1 and match(["u", "&", ["idx", ["param", ps], ["int", hdr]]], call_args(sets[0].expr)[0]) and \
+                    match(["u", "&", ["idx", ["param", ps], ["int", n - 1]]], call_args(sets[0].expr)[1]) and sets[0].expr[2] == ["param", po]
+            ctx.ob("SpecialScripts/extract:%s@L%s" % (q, e.line), "SYMMETRY", "%s extracts exactly the bytes the decompressor puts back (same offset and length; the key starts at its "
+                   "header byte)" % q, bool(okc), where, detail or None)
+        ok = used_sizes == set(sizes)
+        ctx.ob("SpecialScripts/shape:%s/coverage" % q, "SYMMETRY", "every script length regenerated for the tags written under %s has an accepting branch in %s" % (q, q), ok, pf.where,
+               {"sizes": {n: ts for n, ts in sizes.items()}, "accepted": sorted(used_sizes)})
+        # CompressScript: the tag written pins the key header the decompressor regenerates
+        for s, tags, fm in info["sites"]:
+            hdrs = set()
+            for t in tags:
+                if T[t]["tagpos"] is not None:
+                    hdrs.add(t)
+                elif T[t]["rebuilt"]:
+                    hdrs.add(4)
+            if not hdrs:
+                continue
+            K = info["key"]
+            cex = F.counterexample(fm, F.mk_or([F.atom("%s[0] == %d" % (K, h)) for h in sorted(hdrs)]))
+            ctx.ob("SpecialScripts/tag-header@L%s" % s.line, "SYMMETRY", "CompressScript writes tag(s) %s only for a key whose header byte is %s - the header DecompressScript regenerates "
+                   "for those tags" % (sorted(tags), sorted(hdrs)), cex is None, s.where, None if cex is None else {"guard": F.fshow(fm)[:400], "counterexample": cex})
+            # x coordinate: both sides use bytes 1..32 of the key
+        xs = [x for _, e in all_exprs(cs.body) for x in subexprs(e) if is_call_to("memcpy", x) and match(["u", "&", ["idx", ["local", info["key"]], ["int", ANY]]], strip(call_args(x)[1]))]
+        if xs:
+            ok = all(match(["u", "&", ["idx", ["param", outp], ["int", 1]]], call_args(x)[0]) and strip(call_args(x)[1])[2][2][1] == 1 and match(["int", 32], call_args(x)[2]) for x in xs)
+            ctx.ob("SpecialScripts/x-coordinate:%s" % q, "SYMMETRY", "CompressScript stores key bytes 1..32 (the x coordinate) behind the tag byte", ok, cs.where)
+
+
+# --------------------------------------------------------------------------------------------------
 def check(ctx):
     P = ctx.program(UNITS)
     compare_pair(ctx, P, "Coin", "Coin::Serialize", "Coin::Unserialize", "Coin", "this")
@@ -465,4 +631,5 @@ def check(ctx):
     compare_pair(ctx, P, "Amount", "AmountCompression::Ser", "AmountCompression::Unser", None, "#1")
     txout_compression(ctx, P)
     script_compression(ctx, P)
+    special_shapes(ctx, P)
     ctx.floor("C18 obligations", len(ctx.obs), 36)
